@@ -6,7 +6,7 @@ cd /verif
 mkdir -p build/logs evidence replays
 export PYTHONPATH=/repo/src PYTHONHASHSEED=0 PYTHONWARNINGS=ignore
 # translator-generated files (regenerated again by every check)
-[ -f harness/translate.py ] && /venv/bin/python harness/translate.py || true
+/venv/bin/python harness/translate_history.py > /dev/null
 harness/gen_coqproject.sh
 ( cd coq && timeout 3000 make -j16 ) > build/logs/setup_make.log 2>&1 || { tail -30 build/logs/setup_make.log; exit 1; }
 /venv/bin/python - <<'PY'
